@@ -71,7 +71,11 @@ impl DiskIO {
     // the O_DIRECT variant (unsafe pwrite on an aligned buffer): opaque
     #[verifier::external_body]
     pub fn write_retirement_extent_direct(&mut self, sector: u64, sectors: usize, scratch: &mut AlignedBuffer) -> (r: Result<()>)
+        // C20: the scratch buffer holds the largest chunk this extent is written in (the precondition under which unit raw_io
+        // proves the function's set_len / pwrite in bounds)
+        requires old(scratch).spec_cap() >= (if sectors <= 256 { sectors as int } else { 256 }) * 4096,
         ensures final(self)._use_direct_io == old(self)._use_direct_io, final(self).poisoned() == old(self).poisoned(),
+            final(scratch).spec_cap() == old(scratch).spec_cap(),
             final(self).log() == old(self).log().push(IoEvent::Direct),
     {
         unimplemented!()
@@ -81,12 +85,27 @@ impl DiskIO {
 #[verifier::external_body]
 pub struct AlignedBuffer { _p: () }
 impl AlignedBuffer {
+    pub uninterp spec fn spec_cap(&self) -> usize;
     #[verifier::external_body]
-    pub fn new(size: usize) -> Result<AlignedBuffer> { unimplemented!() }
+    pub fn new(size: usize) -> (r: Result<AlignedBuffer>)
+        ensures r matches Ok(b) ==> b.spec_cap() >= size,
+    {
+        unimplemented!()
+    }
+    // panics past the capacity (Kani unit aligned_buffer)
     #[verifier::external_body]
-    pub fn set_len(&mut self, n: usize) { unimplemented!() }
+    pub fn set_len(&mut self, n: usize)
+        requires n <= old(self).spec_cap(),
+        ensures final(self).spec_cap() == old(self).spec_cap(),
+    {
+        unimplemented!()
+    }
     #[verifier::external_body]
-    pub fn zero_fill(&mut self) { unimplemented!() }
+    pub fn zero_fill(&mut self)
+        ensures final(self).spec_cap() == old(self).spec_cap(),
+    {
+        unimplemented!()
+    }
 }
 
 // the 19 marker bytes of one retired block: "\0DELETED" | le64(remaining) | le16(token(sector, ..)) | COMPLETE
